@@ -110,7 +110,12 @@ CHECKS = {
               "receiver: the next call issues Transaction-Finished and, iff closure/acknowledged, the Finished PDU with the local "
               "entity as fault location; EOF(cancel) finishes with its condition and the sender as fault location; deletion iff disposition. "
               "Invariant (props/C12b.v, every API call, chains over any history): after the sender's notice of cancellation every File "
-              "Data PDU still emitted lies within the bytes sent before the cancel, the progress never moves, cancelling until idle.",
+              "Data PDU still emitted lies within the bytes sent before the cancel, the progress never moves, cancelling until idle; receiver "
+              "side C12c (no write after a cancel, one deletion at most, five ways into the cancelled state). END TO END (props/C12d.v) over the "
+              "two-handler system, every file and configuration, a cancel request at the sender anywhere in the file-data phase: the next PDU "
+              "is exactly EOF (Cancel Request Received, bytes sent, checksum of that prefix), nothing follows, both users get "
+              "Transaction-Finished with that condition and the sender as fault location, the destination file is absent iff disposition, "
+              "otherwise the prefix sent (acknowledged mode; unacknowledged without closure). Fixed findings F32, F33.",
               "6/C12"),
     "C13": _c("Coq proof (check-limit step lemmas for every limit L + counting induction) + correspondence + schedule-space oracle",
               "Proof (props/C13.v): EOF before all data does not finish the transaction (check timer starts, counter 0); expiry with "
